@@ -1,7 +1,7 @@
 /-
 C15 — property theorems.  (Helper lemmas live in `Lemmas.lean`.)
 -/
-import LimnoriaModel.C15.Lemmas
+import LimnoriaModel.C15.BootLemmas
 namespace C15
 open Py
 
@@ -278,6 +278,72 @@ theorem string_variants_roundtrip (k : StrClass) (hk : k ≠ .normalized) (pr : 
   simp only [string_roundtrip, SetRes.bind, setValue_idem k hk]
 
 example : StrClass.surrounded ≠ .normalized ∧ StrClass.surrounded.setValue "\"".toList = " \" ".toList := by decide
+
+/-! ### end to end: save, read, start again -/
+
+/-- **`boot(read(save(tree))) = tree`.**  A value tree in normal form (`TreeSpec`: the general
+value, the set `#channel` values, per `:network` its value when set and its set channel values;
+`build` adds the unset network nodes that exist only because one of their channels is set) is
+written by `registry.close`, read by `open_registry` in a fresh process and rebuilt by
+`registerChannelValue` — node for node, with the same values and `_wasSet` flags, under `Storable`:
+the class reads back what it prints for every recorded value (`RT`, discharged below for String,
+Boolean, Integer), names are reader-safe and case-insensitively distinct, channel names are valid,
+no network name ends in a backslash, children are in `_added.sort()` order.  The new cache holds
+exactly the saved texts. -/
+theorem save_load_roundtrip (pr : Char → Bool) (c : ClassId) (dflt : Val) (K : Kind) (B : Str)
+    (t : TreeSpec Val) (cache0 : Cache) (hK : K.chanV = true) (h : Storable pr c dflt B t) :
+    saveLoad pr c dflt K B ⟨t.build, cache0⟩ =
+      .up ⟨t.build, (t.entries B).map fun kv => (kv.1, c.show pr kv.2)⟩ :=
+  saveLoad_normal_aux header_table_ok pr c dflt K B t cache0 hK h
+
+/-- `RT` for the String class: every string -/
+theorem rt_string (pr : Char → Bool) (dflt : Val) (x : Str) : RT (ClassId.cls pr (.str .plain) dflt) (.s x) := by
+  intro cur
+  show (StrClass.set .plain pr (strStr pr x)).map Val.s = .ok (.s x)
+  have := string_variants_roundtrip .plain (by decide) pr x
+  simp only [StrClass.setValue] at this
+  rw [this]; rfl
+
+/-- `RT` for Boolean: both values, whatever the node held -/
+theorem rt_bool (pr : Char → Bool) (dflt : Val) (b : Bool) : RT (ClassId.cls pr .bool dflt) (.b b) := by
+  intro cur
+  show (boolSet _ (boolStr b)).map Val.b = .ok (.b b)
+  rw [bool_roundtrip]; rfl
+
+/-- `RT` for the Integer family: every accepted value of printable size -/
+theorem rt_int (pr : Char → Bool) (dflt : Val) (k : IntClass) (v : Int) (hlen : (intStr v).length ≤ 4000)
+    (hacc : k.setValue v = .ok v) : RT (ClassId.cls pr (.int k) dflt) (.i v) := by
+  intro cur
+  show (k.set (intStr v)).map Val.i = .ok (.i v)
+  rw [int_roundtrip k v hlen hacc]; rfl
+
+/-- a tree with a general value, an old-style channel value, a set network with a channel, and an
+unset network that exists only through its channel meets `Storable` -/
+example : Storable (fun _ => false) .bool (.b false) "supybot.x".toList
+    ⟨.b true, [("#a".toList, .b false)],
+      [⟨"libera".toList, some (.b false), [("#b".toList, .b true)]⟩, ⟨"oftc".toList, none, [("#c".toList, .b true)]⟩]⟩ where
+  rt := by
+    intro kv hkv
+    obtain ⟨k, v⟩ := kv
+    have : ∃ b, v = .b b := by
+      simp [TreeSpec.entries, NetSpec.entries] at hkv
+      rcases hkv with ⟨_, rfl⟩ | ⟨_, rfl⟩ | ⟨_, rfl⟩ | ⟨_, rfl⟩ | ⟨_, rfl⟩ <;> exact ⟨_, rfl⟩
+    obtain ⟨b, rfl⟩ := this
+    exact rt_bool _ _ b
+  names := by unfold GoodName Plain; decide
+  distinct := by decide
+  unset := by decide
+  chans := by unfold ChanOk KeysDistinct; decide
+  nets := by unfold ChanOk KeysDistinct; decide
+  netsDistinct := by decide
+  sorted := by unfold TreeSpec.Sorted; decide
+
+/-- counter-example outside `Storable` (`RT` fails: known finding C15-empty-comma-list): an empty
+comma separated list is a different tree after save + start -/
+theorem save_load_counterexample :
+    saveLoad (fun _ => false) (.list .comma) (.l []) ⟨true, true⟩ "v".toList ⟨⟨.l [], true, [], []⟩, []⟩ =
+      .up ⟨⟨.l [" ".toList], true, [], []⟩, [("v".toList, " ".toList)]⟩ := by
+  decide +kernel
 
 /-! ### names -/
 
